@@ -1,0 +1,20 @@
+//go:build verif
+
+// Contracts for the gocv verifier (comment-only file; see /verif/DESIGN.md §4).
+package resp_ip
+
+// matchRespAddr (C13): every A / AAAA answer is converted as a whole (all its address bytes, via
+// netip.AddrFromSlice) and the set is asked about exactly that address; the result is true iff
+// the set said yes for one of them; other records and unconvertible addresses are skipped.
+//@ func matchRespAddr [C13]
+//@   requires qCtx != nil && m != nil && (qCtx.resp != nil ==> okRRs(qCtx.resp.Answer))
+//@   ensures result_1 == nil
+//@   ensures result_0 ==> calls(MatchI) >= 1 && lastret(MatchI)
+//@   ensures !result_0 && qCtx.resp != nil ==> it0 == len(qCtx.resp.Answer)
+//@   loop 0:
+//@     invariant r != nil && r == qCtx.resp && m != nil && 0 <= it0
+//@     each istype(r.Answer[athead(it0)], *dns.A) ==> iter_calls(AddrFromSlice) == 1 && iter_arg(AddrFromSlice, 0, 0) == cast(*dns.A, r.Answer[athead(it0)].val).A
+//@     each istype(r.Answer[athead(it0)], *dns.AAAA) ==> iter_calls(AddrFromSlice) == 1 && iter_arg(AddrFromSlice, 0, 0) == cast(*dns.AAAA, r.Answer[athead(it0)].val).AAAA
+//@     each !istype(r.Answer[athead(it0)], *dns.A) && !istype(r.Answer[athead(it0)], *dns.AAAA) ==> iter_calls(AddrFromSlice) == 0 && iter_calls(MatchI) == 0
+//@     each iter_calls(AddrFromSlice) == 1 && iter_ret(AddrFromSlice, 0, 1) ==> iter_calls(MatchI) == 1 && iter_arg(MatchI, 0, 0) == m && iter_arg(MatchI, 0, 1) == iter_ret(AddrFromSlice, 0, 0) && !iter_ret(MatchI, 0)
+//@     each iter_calls(AddrFromSlice) == 1 && !iter_ret(AddrFromSlice, 0, 1) ==> iter_calls(MatchI) == 0
